@@ -521,9 +521,366 @@ pub fn c06(ctx: &mut Ctx) {
     }
 }
 
-pub fn c07(_: &mut Ctx) {}
-pub fn c08(_: &mut Ctx) {}
-pub fn c09(_: &mut Ctx) {}
+// ------------------------------------------------------------------------------------------------
+// C07: node-set invariants and set algebra (no reference evaluator needed)
+
+/// document-order key of a locator produced by `subject`: child indexes, an attribute sorts after its
+/// element and before the element's children
+fn lockey(l: &str) -> Option<Vec<i64>> {
+    if l.contains('?') || l.contains('#') || l.contains("empty-text") || l.starts_with('!') { return None; }
+    let (path, attr) = match l.find('@') { Some(p) => (&l[..p], true), None => (l, false) };
+    let mut v: Vec<i64> = vec![];
+    for part in path.split('/') { if part.is_empty() { continue; } v.push(part.parse().ok()?); }
+    if attr { v.push(-1); }
+    Some(v)
+}
+
+/// Some(kind) if the node-set breaks the invariant
+fn nodeset_invariant(v: &[String]) -> Option<(&'static str, String)> {
+    let mut keys: Vec<(Vec<i64>, &String)> = vec![];
+    for l in v { match lockey(l) { Some(k) => keys.push((k, l)), None => return None } }
+    let mut seen = std::collections::HashSet::new();
+    for l in v { if !seen.insert(l) { return Some(("dup", format!("{} occurs more than once in {}", l, v.join(" ")))); } }
+    for w in keys.windows(2) {
+        // attributes of one element may come in any relative order
+        let both_attr_same_owner = w[0].0.last() == Some(&-1) && w[1].0.last() == Some(&-1) && w[0].0.len() == w[1].0.len() && w[0].0[..w[0].0.len() - 1] == w[1].0[..w[1].0.len() - 1];
+        if both_attr_same_owner { continue; }
+        if w[0].0 >= w[1].0 { return Some(("order", format!("{} is listed before {} in {}", w[0].1, w[1].1, v.join(" ")))); }
+    }
+    None
+}
+
+fn c07_gen(doc: &Doc) -> XGen { let mut g = c05_gen(doc); g.allow_pi_literal = true; g }
+
+fn nodes_of(o: &Outcome) -> Option<&Vec<String>> { if let Outcome::Nodes(v) = o { Some(v) } else { None } }
+
+pub fn c07(ctx: &mut Ctx) {
+    let ndocs: u64 = if ctx.thorough { 40_000 } else { 1_600 };
+    let per_doc = if ctx.thorough { 40 } else { 20 };
+    for d in 0..ndocs {
+        if !ctx.mine(d) { continue; }
+        let mut r = ctx.rng(d);
+        ctx.begin(d, "");
+        let case = match make_case(&mut r, xdoc_cfg()) { Ok(c) => c, Err(e) => { ctx.inconclusive(&format!("document_not_usable:{}", crate::util::truncate(&e, 40))); continue; } };
+        let g = c07_gen(&case.doc);
+        let ev = |s: &str| xmlrs_eval(&case.subj, s, &case.ns, None, STEP_BUDGET).0;
+        for k in 0..per_doc {
+            let sp = |r: &mut Rng| Spelling { abbrev: r.chance(1, 2), spaces: false, full_parens: false, redundant: false, outer_ws: false };
+            let ea = g.nodeset(&mut r, 0, true); let eb = g.nodeset(&mut r, 0, true); let ec = g.nodeset(&mut r, 1, true);
+            let (a, b, c) = (xp::render(&ea, sp(&mut r), None), xp::render(&eb, sp(&mut r), None), xp::render(&ec, sp(&mut r), None));
+            ctx.evaluations += 1;
+            if d % 97 == 0 && k == 0 { ctx.sample(&format!("A = {}  B = {}  C = {}  ON  {}", a, b, c, crate::util::truncate(&case.text, 300))); }
+            let oa = ev(&a); let ob = ev(&b); let oc = ev(&c);
+            // (a) invariant on every node-set seen
+            let mut results: Vec<(String, Outcome)> = vec![(a.clone(), oa.clone()), (b.clone(), ob.clone()), (c.clone(), oc.clone())];
+            let u_ab = format!("({}) | ({})", a, b); let u_ba = format!("({}) | ({})", b, a); let u_aa = format!("({}) | ({})", a, a);
+            let u_ab_c = format!("(({}) | ({})) | ({})", a, b, c); let u_a_bc = format!("({}) | (({}) | ({}))", a, b, c);
+            for s in [&u_ab, &u_ba, &u_aa, &u_ab_c, &u_a_bc] { results.push((s.clone(), ev(s))); }
+            let mut any_set = false;
+            for (s, o) in &results {
+                if let Outcome::Nodes(v) = o {
+                    any_set = true; ctx.count("nodesets-checked"); if v.len() > 1 { ctx.count("nodesets-with-2+-nodes"); }
+                    if v.iter().any(|l| lockey(l).is_none()) { ctx.count("skipped/nodes-without-identity"); continue; }
+                    if let Some((kind, detail)) = nodeset_invariant(v) {
+                        let feats = { let mut f = xp::feature_set(&ea); f.extend(xp::feature_set(&eb)); f.retain(|x| x.starts_with("axis:") || x == "filter" || x == "dslash" || x == "op:|"); f.sort(); f.dedup(); f.join("+") };
+                        let _ = feats;
+                        ctx.violation(d, &format!("C07/{}", kind), &format!("{} :: expr {} :: doc {}", detail, s, case.text), &[("doc", &case.text), ("expr", s)]);
+                    }
+                }
+                if let Outcome::Panic(p) = o { ctx.count("totality-failure(see C06)"); let _ = p; }
+            }
+            if any_set { ctx.nontrivial(&format!("{}|{}|{}|{}", a, b, c, case.text)); }
+            // (b) algebra
+            let get = |s: &str| -> Option<Outcome> { results.iter().find(|x| x.0 == s).map(|x| x.1.clone()) };
+            if let (Some(va), Some(vb)) = (nodes_of(&oa), nodes_of(&ob)) {
+                let law = |ctx: &mut Ctx, name: &str, l: &Outcome, rr: &Outcome, detail: String| {
+                    ctx.count(&format!("law/{}", name));
+                    if let (Outcome::Nodes(x), Outcome::Nodes(y)) = (l, rr) { if x != y { ctx.violation(d, &format!("C07/algebra/{}", name), &format!("{} :: left {} right {} :: doc {}", detail, l.brief(), rr.brief(), case.text), &[("doc", &case.text), ("expr", &detail)]); } }
+                    else if std::mem::discriminant(l) != std::mem::discriminant(rr) { ctx.violation(d, &format!("C07/algebra/{}/kind", name), &format!("{} :: left {} right {} :: doc {}", detail, l.brief(), rr.brief(), case.text), &[("doc", &case.text), ("expr", &detail)]); }
+                };
+                let (o_ab, o_ba, o_aa) = (get(&u_ab).unwrap(), get(&u_ba).unwrap(), get(&u_aa).unwrap());
+                law(ctx, "commutative", &o_ab, &o_ba, format!("{}  vs  {}", u_ab, u_ba));
+                law(ctx, "idempotent", &o_aa, &oa, format!("{}  vs  {}", u_aa, a));
+                if nodes_of(&oc).is_some() { law(ctx, "associative", &get(&u_ab_c).unwrap(), &get(&u_a_bc).unwrap(), format!("{}  vs  {}", u_ab_c, u_a_bc)); }
+                // count(A|B) <= count(A) + count(B), and >= max
+                ctx.count("law/count-bound");
+                if let Outcome::Num(n) = ev(&format!("count({})", u_ab)) {
+                    let has_ident = va.iter().chain(vb.iter()).all(|l| lockey(l).is_some());
+                    if n > (va.len() + vb.len()) as f64 || (has_ident && n < va.len().max(vb.len()) as f64) { ctx.violation(d, "C07/algebra/count-bound", &format!("count({}) = {} with count(A) = {} count(B) = {} :: doc {}", u_ab, n, va.len(), vb.len(), case.text), &[("doc", &case.text), ("expr", &u_ab)]); }
+                    if let Some(Outcome::Nodes(u)) = get(&u_ab).as_ref() { if n != u.len() as f64 { ctx.violation(d, "C07/algebra/count-vs-length", &format!("count({}) = {} but the node-set has {} nodes :: doc {}", u_ab, n, u.len(), case.text), &[("doc", &case.text), ("expr", &u_ab)]); } }
+                }
+                // positional filters on a parenthesised node-set count in document order
+                if va.iter().all(|l| lockey(l).is_some()) {
+                    let mut sorted: Vec<&String> = va.iter().collect(); sorted.sort_by_key(|l| lockey(l).unwrap()); sorted.dedup();
+                    let attr_mix = va.iter().filter(|l| l.contains('@')).count() > 1; // order among attributes of one element is open
+                    if !attr_mix {
+                        for (pred, want) in [("1".to_string(), sorted.first().cloned()), ("2".to_string(), sorted.get(1).cloned()), ("last()".to_string(), sorted.last().cloned()), ("position()=1".to_string(), sorted.first().cloned()), (format!("{}", sorted.len() + 1), None)] {
+                            let s = format!("({})[{}]", a, pred);
+                            ctx.count("law/positional-filter");
+                            if let Outcome::Nodes(got) = ev(&s) {
+                                let want_v: Vec<String> = want.into_iter().cloned().collect();
+                                if got != want_v { ctx.violation(d, "C07/algebra/positional-filter", &format!("{} gave {} but the node-set in document order is {} :: doc {}", s, got.join(" "), sorted.iter().map(|x| x.as_str()).collect::<Vec<_>>().join(" "), case.text), &[("doc", &case.text), ("expr", &s)]); }
+                            }
+                        }
+                    }
+                }
+            }
+        }
+    }
+}
+// ------------------------------------------------------------------------------------------------
+// C08: equivalent spellings; precedence and associativity; node-type tests where a step may begin
+
+/// [n] <-> [position() = n] on every numeric predicate (a model transformation that XPath defines as equivalent)
+fn swap_numeric_preds(e: &Expr) -> Expr {
+    let sw = |p: &Expr| -> Expr { match p { Expr::Num(n) => Expr::Bin(Op::Eq, Box::new(Expr::Func("position".into(), vec![])), Box::new(Expr::Num(n.clone()))), o => swap_numeric_preds(o) } };
+    match e {
+        Expr::Bin(op, a, b) => Expr::Bin(*op, Box::new(swap_numeric_preds(a)), Box::new(swap_numeric_preds(b))),
+        Expr::Neg(a) => Expr::Neg(Box::new(swap_numeric_preds(a))),
+        Expr::Func(n, args) => Expr::Func(n.clone(), args.iter().map(swap_numeric_preds).collect()),
+        Expr::Path(start, steps) => {
+            let start = match start { Start::Filter(fe, preds) => Start::Filter(Box::new(swap_numeric_preds(fe)), preds.iter().map(sw).collect()), o => o.clone() };
+            Expr::Path(start, steps.iter().map(|s| Step { axis: s.axis, test: s.test.clone(), preds: s.preds.iter().map(sw).collect(), dslash: s.dslash }).collect())
+        }
+        o => o.clone(),
+    }
+}
+
+fn has_numeric_pred(e: &Expr) -> bool { xp::feature_set(e).iter().any(|f| f == "pred-number") }
+
+const PREC_OPERANDS: &[&str] = &["7", "3", "2", "0", "true()", "false()", "'3'", "''", "//a", "//b", "count(//a)", "-1"];
+const PREC_NODESETS: &[&str] = &["//a", "//b", "//nomatch", "/r/a[1]"];
+
+fn lit_expr(s: &str) -> Expr {
+    match s {
+        "true()" => Expr::Func("true".into(), vec![]), "false()" => Expr::Func("false".into(), vec![]),
+        "'3'" => Expr::Lit("3".into()), "''" => Expr::Lit(String::new()), "-1" => Expr::Neg(Box::new(Expr::Num("1".into()))),
+        "count(//a)" => Expr::Func("count".into(), vec![lit_expr("//a")]),
+        "/r/a[1]" => Expr::Path(Start::Root, vec![Step { axis: Axis::Child, test: Test::Name(None, "r".into()), preds: vec![], dslash: false }, Step { axis: Axis::Child, test: Test::Name(None, "a".into()), preds: vec![Expr::Num("1".into())], dslash: false }]),
+        x if x.starts_with("//") => Expr::Path(Start::Root, vec![Step { axis: Axis::Child, test: Test::Name(None, x[2..].to_string()), preds: vec![], dslash: true }]),
+        n => Expr::Num(n.to_string()),
+    }
+}
+
+const PREC_DOC: &str = "<r><a>3</a><b>7</b><a>2</a><c/></r>";
+
+fn prec_doc_model() -> Doc {
+    use model::{Elem, Node};
+    let leaf = |n: &str, t: &str| Node::Elem(Elem { local: n.into(), children: if t.is_empty() { vec![] } else { vec![Node::Text(t.into())] }, ..Default::default() });
+    Doc { decl: None, pre: vec![], doctype: None, mid: vec![], root: Elem { local: "r".into(), children: vec![leaf("a", "3"), leaf("b", "7"), leaf("a", "2"), leaf("c", "")], ..Default::default() }, post: vec![] }
+}
+
+const NT_TEMPLATES: &[&str] = &["NT", "NT/..", "r[NT]", "r/a[NT]", "count(NT)", "count(r/NT)", "NT | r", "r | NT", "(NT)", "- NT", "NT = 'x'", "'x' = NT", "r/a[NT = 'x']", "r/a[not(NT)]", "r/a[NT and @i]", "r/a[@i or NT]", "concat(NT, 'x')", "//NT", "r//NT", "1 + NT", "NT[1]", "r/a[NT[1]]", "r/a[ NT ]", "string(r/a/NT)", "r/a/NT", "r/a/NT[last()]", "count(r/a[NT] | r/NT)", "boolean(NT)", "r/a[count(NT) = 1]", "NT div 2", "r/NT/following-sibling::NT"];
+const NT_NAMES: &[&str] = &["text()", "comment()", "node()", "processing-instruction()", "processing-instruction('p')"];
+const NT_DOC: &str = "<?p top?><!--top--><r>x<a i='1'>x<!--c--><?p d?></a><a>y</a><!--c2--><?q e?>z</r>";
+
+pub fn c08(ctx: &mut Ctx) {
+    // (a) random ASTs in several spellings
+    let ndocs: u64 = if ctx.thorough { 30_000 } else { 1_200 };
+    let per_doc = if ctx.thorough { 30 } else { 20 };
+    for d in 0..ndocs {
+        if !ctx.mine(d) { continue; }
+        let mut r = ctx.rng(d);
+        ctx.begin(d, "");
+        let case = match make_case(&mut r, xdoc_cfg()) { Ok(c) => c, Err(e) => { ctx.inconclusive(&format!("document_not_usable:{}", crate::util::truncate(&e, 40))); continue; } };
+        let g = c07_gen(&case.doc);
+        for k in 0..per_doc {
+            let e = g.top(&mut r);
+            let canon = xp::render(&e, Spelling::canonical(), None);
+            let base = xmlrs_eval(&case.subj, &canon, &case.ns, None, STEP_BUDGET).0;
+            if matches!(base, Outcome::Panic(_) | Outcome::Steps) { ctx.count("totality-failure(see C06)"); continue; }
+            ctx.evaluations += 1;
+            ctx.nontrivial(&format!("{}|{}", canon, case.text));
+            let mk = |abbrev, spaces, full_parens, redundant, outer_ws| Spelling { abbrev, spaces, full_parens, redundant, outer_ws };
+            let mut variants: Vec<(&'static str, String)> = vec![
+                ("abbreviated", xp::render(&e, mk(true, false, false, false, false), None)),
+                ("white-space", xp::render(&e, mk(false, true, false, false, false), Some(&mut r))),
+                ("full-parentheses", xp::render(&e, mk(false, false, true, false, false), None)),
+                ("redundant-parentheses", xp::render(&e, mk(false, false, false, true, false), Some(&mut r))),
+                ("outer-white-space", xp::render(&e, mk(false, false, false, false, true), None)),
+                ("combined", xp::render(&e, mk(true, true, r.chance(1, 2), true, r.chance(1, 2)), Some(&mut r))),
+            ];
+            if has_numeric_pred(&e) { variants.push(("numeric-predicate", xp::render(&swap_numeric_preds(&e), Spelling::canonical(), None))); }
+            if d % 97 == 0 && k == 0 { ctx.sample(&format!("{}  ==  {}", canon, variants.iter().map(|v| v.1.clone()).collect::<Vec<_>>().join("  ==  "))); }
+            for (name, s) in &variants {
+                if s == &canon { ctx.count(&format!("spelling/{}/identical-text", name)); continue; }
+                ctx.count(&format!("spelling/{}", name));
+                let o = xmlrs_eval(&case.subj, s, &case.ns, None, STEP_BUDGET).0;
+                if let Some(kind) = diff(&base, &o) {
+                    if kind == "panic" || kind == "steps" { ctx.count("totality-failure(see C06)"); continue; }
+                    // attribute order is open: a name()/string() of the first attribute may legitimately not differ here (same engine), so no leniency needed
+                    ctx.violation(d, &format!("C08/spelling/{}/{}", name, kind), &format!("{} gives {} but {} gives {} :: doc {}", canon, base.brief(), s, o.brief(), case.text), &[("doc", &case.text), ("expr", s), ("canonical", &canon)]);
+                }
+            }
+        }
+    }
+    // (b) exhaustive precedence / associativity table over operator pairs
+    let pdoc = prec_doc_model();
+    let ptree = RTree::build(&pdoc);
+    let psubj = subject(PREC_DOC, true);
+    let ops: Vec<Op> = xp::OPS.to_vec();
+    let mut idx = 6_000_000u64;
+    for &op1 in &ops { for &op2 in &ops {
+        idx += 1;
+        if !ctx.mine(idx) { continue; }
+        let psubj = match &psubj { Ok(s) => s, Err(_) => { ctx.inconclusive("precedence_document_not_usable"); continue; } };
+        ctx.begin(idx, "precedence");
+        let mut r = ctx.rng(idx);
+        let reps = if ctx.thorough { 40 } else { 12 };
+        for _ in 0..reps {
+            let pick = |r: &mut Rng, set_needed: bool| -> &'static str { if set_needed { r.pick_s(PREC_NODESETS) } else { r.pick_s(PREC_OPERANDS) } };
+            let a = pick(&mut r, op1 == Op::Union); let b = pick(&mut r, op1 == Op::Union || op2 == Op::Union); let c = pick(&mut r, op2 == Op::Union);
+            // unary minus in front of the first operand half of the time (binds tighter than everything but union)
+            let neg = r.chance(1, 4);
+            let flat = format!("{}{} {} {} {} {}", if neg { "- " } else { "" }, a, op1.sym(), b, op2.sym(), c);
+            let ea = if neg { Expr::Neg(Box::new(lit_expr(a))) } else { lit_expr(a) };
+            let ast = if op2.prec() > op1.prec() { Expr::Bin(op1, Box::new(ea), Box::new(Expr::Bin(op2, Box::new(lit_expr(b)), Box::new(lit_expr(c))))) } else { Expr::Bin(op2, Box::new(Expr::Bin(op1, Box::new(ea), Box::new(lit_expr(b)))), Box::new(lit_expr(c))) };
+            // with a union next to the negated operand the minus applies to the union
+            let ast = if neg && op1 == Op::Union { if op2 == Op::Union { Expr::Neg(Box::new(Expr::Bin(Op::Union, Box::new(Expr::Bin(Op::Union, Box::new(lit_expr(a)), Box::new(lit_expr(b)))), Box::new(lit_expr(c))))) } else { Expr::Bin(op2, Box::new(Expr::Neg(Box::new(Expr::Bin(Op::Union, Box::new(lit_expr(a)), Box::new(lit_expr(b)))))), Box::new(lit_expr(c))) } } else { ast };
+            let paren = xp::render(&ast, Spelling { abbrev: true, spaces: false, full_parens: true, redundant: false, outer_ws: false }, None);
+            ctx.evaluations += 1; ctx.count("precedence-cases"); ctx.nontrivial(&flat);
+            let of = xmlrs_eval(psubj, &flat, &[], None, STEP_BUDGET).0;
+            let op_ = xmlrs_eval(psubj, &paren, &[], None, STEP_BUDGET).0;
+            let exp = ref_eval(&ptree, &ast, &[], None);
+            let bad = diff(&op_, &of).or_else(|| diff(&exp, &of));
+            if let Some(kind) = bad {
+                // a recorded finding (e.g. '-0') must reproduce exactly
+                let got_dev = masks_by_popcount().into_iter().find(|m| diff(&ref_eval_dev(&ptree, &ast, &[], None, xp::Dev::from_mask(*m)).0, &of).is_none() && diff(&op_, &of).is_none());
+                if let Some(m) = got_dev { ctx.violation(idx, &format!("C08/deviation/{}", xp::Dev::names(m)), &format!("{} = {}", flat, of.brief()), &[("expr", &flat)]); continue; }
+                let l = lib_eval(PREC_DOC, &flat, &[]);
+                if let Some(l) = &l { if diff(&exp, l).is_some() { ctx.inconclusive("oracle_disagreement"); if ctx.notes.len() < 10 { ctx.notes.push(format!("precedence: O2 {} O3 {} for {}", exp.brief(), l.brief(), flat)); } continue; } }
+                ctx.violation(idx, &format!("C08/precedence/{}/{}", op1.sym(), op2.sym()), &format!("{} gives {}; grammar grouping {} gives {}; reference {} ({})", flat, of.brief(), paren, op_.brief(), exp.brief(), kind), &[("expr", &flat), ("grouped", &paren), ("doc", PREC_DOC)]);
+            }
+        }
+    } }
+    // (c) node-type tests wherever a step may begin: NT must behave as child::NT
+    let nsubj = subject(NT_DOC, true);
+    for (ti, tpl) in NT_TEMPLATES.iter().enumerate() {
+        let idx = 7_000_000 + ti as u64;
+        if !ctx.mine(idx) { continue; }
+        let nsubj = match &nsubj { Ok(s) => s, Err(_) => { ctx.inconclusive("nodetype_document_not_usable"); continue; } };
+        ctx.begin(idx, "node-type-test");
+        for nt in NT_NAMES {
+            let short = tpl.replace("NT", nt);
+            let long = tpl.replace("::NT", "::\u{1}").replace("NT", &format!("child::{}", nt)).replace('\u{1}', nt);
+            ctx.evaluations += 1; ctx.count("node-type-cases"); ctx.nontrivial(&short);
+            let os = xmlrs_eval(nsubj, &short, &[], None, STEP_BUDGET).0;
+            let ol = xmlrs_eval(nsubj, &long, &[], None, STEP_BUDGET).0;
+            let lib = lib_eval(NT_DOC, &short, &[]);
+            let mut bad = diff(&ol, &os);
+            if bad.is_none() { if let Some(l) = &lib { bad = diff(l, &os); } }
+            if let Some(kind) = bad {
+                // explained by the recorded '-0' finding? (only a string "-0" vs "0")
+                if let (Some(Outcome::Str(a)), Outcome::Str(b)) = (&lib, &os) { if a.replace("-0", "0") == b.replace("-0", "0") && diff(&ol, &os).is_none() { ctx.violation(idx, "C08/deviation/neg-zero-string", &short, &[("expr", &short)]); continue; } }
+                ctx.violation(idx, &format!("C08/node-type-test/{}", kind), &format!("{} gives {}; {} gives {}; libxml2 {}", short, os.brief(), long, ol.brief(), lib.map(|l| l.brief()).unwrap_or_default()), &[("expr", &short), ("doc", NT_DOC)]);
+            }
+        }
+    }
+}
+// ------------------------------------------------------------------------------------------------
+// C09: scalar semantics of the core library and the operators over a value pool
+
+#[derive(Clone)]
+struct SVal { expr: Expr, class: &'static str }
+
+fn s_lit(s: &str, class: &'static str) -> SVal { SVal { expr: Expr::Lit(s.to_string()), class } }
+fn s_num(n: &str, class: &'static str) -> SVal { SVal { expr: Expr::Num(n.to_string()), class } }
+fn s_div(a: &str, b: &str, neg: bool, class: &'static str) -> SVal { let e = Expr::Bin(Op::Div, Box::new(Expr::Num(a.into())), Box::new(Expr::Num(b.into()))); SVal { expr: if neg { Expr::Neg(Box::new(e)) } else { e }, class } }
+fn s_neg(n: &str, class: &'static str) -> SVal { SVal { expr: Expr::Neg(Box::new(Expr::Num(n.into()))), class } }
+
+fn pool_strings() -> Vec<SVal> {
+    vec![
+        s_lit("", "empty"), s_lit(" ", "ws"), s_lit(" \t\n", "ws"), s_lit("a", "ascii"), s_lit("abc", "ascii"), s_lit("abcabc", "ascii"), s_lit("b", "ascii"), s_lit("ABC", "ascii"), s_lit("a b  c", "ascii-ws"), s_lit("  a  ", "ascii-ws"),
+        s_lit("\u{e9}", "nonascii"), s_lit("h\u{e9}llo", "nonascii"), s_lit("\u{1d4b3}y", "astral"), s_lit("e\u{301}x", "combining"), s_lit("\u{a0}1\u{a0}", "nbsp"), s_lit("\u{2003}a\u{2003}b", "unicode-space"),
+        s_lit("12", "numeric"), s_lit(" 12 ", "numeric-padded"), s_lit("\t1\n", "numeric-padded"), s_lit("-3.5", "numeric"), s_lit(".5", "numeric"), s_lit("5.", "numeric"), s_lit("-.5", "numeric"), s_lit("01", "numeric"), s_lit("1.0", "numeric"), s_lit("-0", "numeric"), s_lit("0", "numeric"),
+        s_lit("+1", "numeric-like"), s_lit("1e3", "numeric-like"), s_lit("1E3", "numeric-like"), s_lit("0x10", "numeric-like"), s_lit("--1", "numeric-like"), s_lit("- 1", "numeric-like"), s_lit("1 2", "numeric-like"), s_lit("1,5", "numeric-like"), s_lit("1.2.3", "numeric-like"), s_lit(".", "numeric-like"), s_lit("-", "numeric-like"),
+        s_lit("NaN", "word"), s_lit("Infinity", "word"), s_lit("-Infinity", "word"), s_lit("inf", "word"), s_lit("infinity", "word"), s_lit("nan", "word"), s_lit("true", "word"), s_lit("false", "word"), s_lit("\u{661}", "numeric-like"),
+    ]
+}
+fn pool_numbers() -> Vec<SVal> {
+    vec![
+        s_num("0", "zero"), s_neg("0", "negzero"), s_num("1", "int"), s_neg("1", "int"), s_num("2", "int"), s_num("3", "int"), s_num("10", "int"), s_neg("7", "int"),
+        s_num("0.5", "half"), s_neg("0.5", "half"), s_num("1.5", "half"), s_num("2.5", "half"), s_neg("1.5", "half"), s_neg("2.5", "half"), s_num("0.1", "frac"), s_num("3.7", "frac"), s_neg("3.2", "frac"), s_num("0.49999999999999994", "frac"),
+        s_div("0", "0", false, "nan"), s_div("1", "0", false, "inf"), s_div("1", "0", true, "inf"),
+        s_num("1000000000000000000000", "huge"), s_num("9007199254740993", "huge"), s_num("4294967296", "huge"), s_num("10000000000000000000000000000000000000000", "huge"), s_num("0.0000001", "tiny"), s_num("0.000000000000000000001", "tiny"), s_num("4503599627370497.5", "huge"),
+    ]
+}
+fn pool_bools() -> Vec<SVal> { vec![SVal { expr: Expr::Func("true".into(), vec![]), class: "bool" }, SVal { expr: Expr::Func("false".into(), vec![]), class: "bool" }] }
+
+fn c09_case() -> Option<XCase> {
+    use model::{Elem, Node};
+    let doc = Doc { decl: None, pre: vec![], doctype: None, mid: vec![], root: Elem { local: "r".into(), attrs: vec![model::Attr { prefix: Some("xml".into()), local: "lang".into(), value: vec![model::APiece::Text("en-US".into())] }], children: vec![Node::Text(" 12 ".into())], ..Default::default() }, post: vec![] };
+    let text = "<r xml:lang=\"en-US\"> 12 </r>".to_string();
+    let tree = RTree::build(&doc);
+    let subj = subject(&text, true).ok()?;
+    Some(XCase { doc, text, tree, subj, ns: vec![] })
+}
+
+fn c09_one(ctx: &mut Ctx, idx: u64, case: &XCase, what: &str, classes: &str, e: &Expr) {
+    let estr = xp::render(e, Spelling::canonical(), None);
+    ctx.evaluations += 1;
+    ctx.count(&format!("what/{}", what));
+    ctx.nontrivial(&estr);
+    match judge(case, e, &estr, &case.subj) {
+        Judgement::Agree => ctx.count("agree"),
+        Judgement::Deviation { mask, .. } => ctx.violation(idx, &format!("C09/deviation/{}", xp::Dev::names(mask)), &estr, &[("expr", &estr)]),
+        Judgement::Violation { kind, detail } => {
+            let kind = if kind == "panic" { "panic" } else { kind };
+            ctx.violation(idx, &format!("C09/scalar/{}/{}/{}", what, classes, kind), &format!("{} :: {}", estr, detail), &[("expr", &estr), ("doc", &case.text)])
+        }
+        Judgement::Inconclusive(why) => { ctx.inconclusive("oracle_disagreement"); if ctx.notes.len() < 12 { ctx.notes.push(format!("{} :: {}", why, estr)); } }
+    }
+}
+
+pub fn c09(ctx: &mut Ctx) {
+    let case = match c09_case() { Some(c) => c, None => { ctx.inconclusive("document_not_usable"); return; } };
+    let strs = pool_strings(); let nums = pool_numbers(); let bools = pool_bools();
+    let mut mixed: Vec<SVal> = vec![]; mixed.extend(strs.iter().cloned()); mixed.extend(nums.iter().cloned()); mixed.extend(bools.iter().cloned());
+    ctx.sample(&format!("value pool: {} strings, {} numbers, 2 booleans; e.g. {}", strs.len(), nums.len(), mixed.iter().step_by(7).map(|v| xp::render(&v.expr, Spelling::canonical(), None)).collect::<Vec<_>>().join("  ")));
+    let mut idx = 0u64;
+    let f = |name: &str, args: Vec<&SVal>| -> (Expr, String) { (Expr::Func(name.to_string(), args.iter().map(|a| a.expr.clone()).collect()), args.iter().map(|a| a.class).collect::<Vec<_>>().join(",")) };
+    // arity 0 / 1: every function on every pool value (exhaustive)
+    for name in ["string", "number", "boolean", "not", "string-length", "normalize-space", "floor", "ceiling", "round", "lang"] {
+        for v in &mixed { idx += 1; if !ctx.mine(idx) { continue; } ctx.begin(idx, ""); let (e, c) = f(name, vec![v]); c09_one(ctx, idx, &case, name, &c, &e); }
+    }
+    for name in ["string", "number", "string-length", "normalize-space", "true", "false"] { idx += 1; if ctx.mine(idx) { ctx.begin(idx, ""); c09_one(ctx, idx, &case, name, "context", &Expr::Func(name.to_string(), vec![])); } }
+    // arity 2 string functions: strings x strings exhaustive, plus every mixed value in either position against a small string set
+    for name in ["concat", "starts-with", "contains", "substring-before", "substring-after"] {
+        for a in &strs { for b in &strs { idx += 1; if !ctx.mine(idx) { continue; } ctx.begin(idx, ""); let (e, c) = f(name, vec![a, b]); c09_one(ctx, idx, &case, name, &c, &e); } }
+        for a in nums.iter().chain(bools.iter()) { for b in strs.iter().step_by(5) { for swap in [false, true] { idx += 1; if !ctx.mine(idx) { continue; } ctx.begin(idx, ""); let (e, c) = if swap { f(name, vec![b, a]) } else { f(name, vec![a, b]) }; c09_one(ctx, idx, &case, name, &c, &e); } } }
+    }
+    // substring(s, n) exhaustive; substring(s, n, m) exhaustive over a reduced string set (thorough: all strings)
+    let sub_strs: Vec<&SVal> = strs.iter().filter(|s| matches!(s.class, "empty" | "ascii" | "nonascii" | "astral" | "combining")).collect();
+    for s in &strs { for n in &mixed { idx += 1; if !ctx.mine(idx) { continue; } ctx.begin(idx, ""); let (e, c) = f("substring", vec![s, n]); c09_one(ctx, idx, &case, "substring", &c, &e); } }
+    let s3: Vec<&SVal> = if ctx.thorough { strs.iter().collect() } else { sub_strs.clone() };
+    for s in &s3 { for n in &nums { for m in &nums { idx += 1; if !ctx.mine(idx) { continue; } ctx.begin(idx, ""); let (e, c) = f("substring", vec![s, n, m]); c09_one(ctx, idx, &case, "substring", &c, &e); } } }
+    // translate: reduced sets exhaustive
+    let tr: Vec<&SVal> = strs.iter().filter(|s| matches!(s.class, "empty" | "ascii" | "nonascii" | "astral" | "combining" | "numeric")).collect();
+    for a in &tr { for b in &tr { for c3 in tr.iter().step_by(if ctx.thorough { 1 } else { 3 }) { idx += 1; if !ctx.mine(idx) { continue; } ctx.begin(idx, ""); let (e, c) = f("translate", vec![a, b, c3]); c09_one(ctx, idx, &case, "translate", &c, &e); } } }
+    for a in &sub_strs { for b in &sub_strs { for c3 in &sub_strs { idx += 1; if !ctx.mine(idx) { continue; } ctx.begin(idx, ""); let (e, c) = f("concat", vec![a, b, c3]); c09_one(ctx, idx, &case, "concat", &c, &e); } } }
+    // binary operators over the mixed pool (exhaustive) and unary minus
+    for op in xp::OPS.iter().filter(|o| **o != Op::Union) {
+        for a in &mixed { for b in &mixed {
+            idx += 1; if !ctx.mine(idx) { continue; } ctx.begin(idx, "");
+            let e = Expr::Bin(*op, Box::new(a.expr.clone()), Box::new(b.expr.clone()));
+            c09_one(ctx, idx, &case, &format!("op {}", op.sym()), &format!("{},{}", a.class, b.class), &e);
+            // the result as a string as well (number -> string conversion of every computed value)
+            if matches!(op, Op::Add | Op::Sub | Op::Mul | Op::Div | Op::Mod) && a.class != "bool" && b.class != "bool" && (idx % 3 == 0 || ctx.thorough) {
+                let es = Expr::Func("string".into(), vec![e]);
+                c09_one(ctx, idx, &case, &format!("string(op {})", op.sym()), &format!("{},{}", a.class, b.class), &es);
+            }
+        } }
+    }
+    for a in &mixed { idx += 1; if !ctx.mine(idx) { continue; } ctx.begin(idx, ""); let e = Expr::Neg(Box::new(a.expr.clone())); c09_one(ctx, idx, &case, "op neg", a.class, &e); let es = Expr::Func("string".into(), vec![Expr::Neg(Box::new(a.expr.clone()))]); c09_one(ctx, idx, &case, "string(op neg)", a.class, &es); }
+    // arity errors: every function outside its arity range must be an error, never a panic
+    for (name, lo, hi, _) in xp::FUNCS.iter() {
+        for n in 0..=4usize { if n >= *lo && n <= *hi && *name != "concat" { continue; } if *name == "concat" && n >= 2 { continue; }
+            idx += 1; if !ctx.mine(idx) { continue; } ctx.begin(idx, "");
+            let e = Expr::Func(name.to_string(), (0..n).map(|_| Expr::Lit("a".into())).collect());
+            c09_one(ctx, idx, &case, &format!("arity {}", name), &n.to_string(), &e);
+        }
+    }
+}
 pub fn c10(_: &mut Ctx) {}
 pub fn c19(_: &mut Ctx) {}
 
